@@ -192,6 +192,28 @@ func (f *yieldReader) Read(p []byte) (int, error) {
 
 var errCallback = errors.New("verif: injected callback failure")
 
+// nthNode re-builds the tree and returns its k-th node in the order the items were given (nil for -1)
+func nthNode(root *gtree.Node, k int, items []wproto.Item) *gtree.Node {
+	if k < 0 {
+		return nil
+	}
+	var chain []*gtree.Node
+	for i, it := range items {
+		var n *gtree.Node
+		if it.D == 1 {
+			n = root
+			chain = []*gtree.Node{root}
+		} else {
+			n = chain[it.D-2].Add(it.N)
+			chain = append(chain[:it.D-1], n)
+		}
+		if i == k {
+			return n
+		}
+	}
+	return root
+}
+
 func handleReq(rq wproto.Req) (rp wproto.Rep) {
 	var buf bytes.Buffer
 	fw := &faultWriter{buf: &buf, fault: rq.WFault, yield: rq.Yield}
@@ -254,7 +276,7 @@ func handleReq(rq wproto.Req) (rp wproto.Rep) {
 		return nil
 	}
 	var before map[string]string
-	if rq.Leaks {
+	if rq.Leaks || rq.Record || rq.Delays != 0 || len(rq.Plan) > 0 {
 		before = real.GtreeGoroutines()
 	}
 	if rq.PreDoc != "" && jail != "" {
@@ -267,6 +289,24 @@ func handleReq(rq wproto.Req) (rp wproto.Rep) {
 	o := real.Guard(func() error {
 		if rq.Route == "root" {
 			root := buildItems(rq.Items)
+			for _, po := range rq.PreOps { // earlier operations on the very same tree
+				switch po {
+				case "output":
+					gtree.OutputFromRoot(io.Discard, root)
+				case "json":
+					gtree.OutputFromRoot(io.Discard, root, gtree.WithEncodeJSON())
+				case "walk":
+					gtree.WalkFromRoot(root, func(*gtree.WalkerNode) error { return nil })
+				case "walkiter":
+					for range gtree.WalkIterFromRoot(root) {
+					}
+				case "massive-output":
+					gtree.OutputFromRoot(io.Discard, root, gtree.WithMassive(context.Background()))
+				}
+			}
+			if rq.NodeIdx != 0 {
+				root = nthNode(root, rq.NodeIdx, rq.Items)
+			}
 			switch {
 			case rq.Op == "output" && rq.Alias:
 				return gtree.OutputProgrammably(fw, root, opts...)
@@ -338,13 +378,22 @@ func handleReq(rq wproto.Req) (rp wproto.Rep) {
 	if jail != "" {
 		rp.Entries = snapshot(jail)
 	}
+	hc.release()
 	if rq.Leaks && rp.Class != "hang" {
 		leaks := real.SettledLeaks(before, 150*time.Millisecond)
 		rp.Leaked, rp.LeakSigs = len(leaks), leaks
 		hc.log("settled", fmt.Sprint(len(leaks)))
 	}
 	hc.mu.Lock()
-	rp.Events, rp.Unforced, rp.PlanDone = hc.events, hc.unforced, hc.planIdx
+	rp.Events, rp.Unforced, rp.PlanDone = append([]wproto.Event{}, hc.events...), hc.unforced, hc.planIdx
 	hc.mu.Unlock()
+	if rq.Record || rq.Delays != 0 || len(rq.Plan) > 0 {
+		// goroutines still held at the gate, or still winding down, must not spill their hook events into
+		// the next request's recording
+		hc.release()
+		if !rq.Leaks {
+			real.SettledLeaks(before, 300*time.Millisecond)
+		}
+	}
 	return rp
 }
